@@ -219,6 +219,46 @@ NEEDS = {
  "C20-r4m1": ("osmapi/datasource.go getFromAPI: a non-200 response with Retry-After is retried once", "a non-200 status carrying a Retry-After header: two requests, the second bypassing the limiter"),
  "C20-r4m2": ("osmapi/options.go At: t.Round(time.Second)", "an instant with a fraction of half a second or more"),
  "C20-r4m3": ("osmapi/datasource.go getFromAPI: the fallback client is stored in the Datasource", "a datasource without client called once, the default client replaced, called again"),
+ "C01-r7m1": ("osmpbf/decode.go Start: headerless-start branch no longer advances the round-robin index after pushing the first data block", "a stream that starts at an OSMData block, procs >= 2 and at least two data blocks (same change as C02-r7m1 / C08-r7m2; caught by the quick checks of C02, C08 and C09 - C01 quantifies over files with their header block)"),
+ "C01-r7m2": ("osmpbf/decode.go decodeOSMHeader: replication timestamp read through the getter and tested != 0", "header field 32 present with value exactly 0"),
+ "C02-r7m1": ("osmpbf/decode.go Start: headerless-start branch no longer advances the round-robin index", "headerless stream, procs >= 2, at least 3 data blocks"),
+ "C02-r7m2": ("osmpbf/decode.go: decoder goroutine continues instead of sending an empty result", "procs >= 2 and a block that yields no objects (skipped type, all filtered, empty block) followed by more blocks"),
+ "C03-r7m1": ("osmxml/scanner.go Scan: unknown wrappers are skipped whole; old/new missing from the list of known wrappers", "stream-scanning an augmented diff with modify/delete actions"),
+ "C03-r7m2": ("diff.go Action.UnmarshalXML: token loop breaks at the first end element", "an <action> with an unknown child element (e.g. <meta/>) in any position"),
+ "C04-r7m1": ("osmxml/scanner.go: bounds are only returned until the first non-bounds object was returned", "an osmChange or diff where a later block carries bounds after an earlier block held an element"),
+ "C04-r7m2": ("osm.go marshalInnerXML + bounds.go: container bounds written only if not 'empty' (min == max on both axes)", "container-level Bounds with coinciding corners (point bounds, all-zero bounds)"),
+ "C05-r7m1": ("osm.go UnmarshalJSON/findType: the type probe struct is hoisted out of the loop and reused", "an element without type (or type null) after a typed element: decoded as the preceding kind instead of rejected"),
+ "C05-r7m2": ("osm.go UnmarshalJSON: numeric version formatted with bitSize 32", "a numeric top-level version needing about 8 or more significant digits"),
+ "C06-r7m1": ("osmpbf/decode.go readBlobHeaderSize: size >= max became size > max", "a size prefix of exactly 65536 followed by a well-formed 65536-byte BlobHeader (indexdata padding)"),
+ "C06-r7m2": ("osmpbf/decode_data.go extractDenseNodes: k <= 0 ends a node's tags", "a negative reference in key position of the dense keys_vals column"),
+ "C07-r7m1": ("osmpbf/decode.go Start: wg.Add(n+2) moved before the header checks that can still fail", "a first fileblock that is readable but rejected (unsupported required feature, unknown type), then Close"),
+ "C07-r7m2": ("osmxml/scanner.go Scan: ctx.Err() checked once per Scan instead of once per token", "cancellation during a Scan followed by a long run of foreign elements / comments"),
+ "C08-r7m1": ("osmpbf/decode_data.go scanWays: way.Nodes re-sliced from the node memory of a rejected way without clearing", "FilterWay rejects a way with lat/lon columns and the next accepted way of the group has none and no more refs"),
+ "C08-r7m2": ("osmpbf/decode.go Start: headerless-start branch no longer advances the round-robin index", "headerless stream, procs >= 2, at least 2 data blocks"),
+ "C09-r7m1": ("osmpbf/decode.go newDecoder: bytesRead initialised from an io.Seeker's position while the restart path still reports 0 for its first block", "resuming on a seekable reader (os.File, bytes.Reader) positioned at a non-zero offset"),
+ "C09-r7m2": ("osmpbf/decode_data.go: DateGranularity missing from the per-block reset", "a block without date_granularity decoded by the goroutine that decoded a block with a non-default one; resumed scanner has a fresh decoder"),
+ "C10-r7m1": ("feature.go ParseFeatureID: delegates to ParseElementID(s).FeatureID()", "element-shaped text (type/ref:version) handed to the feature parser is accepted"),
+ "C10-r7m2": ("object.go ParseObjectID: version parsed with ParseInt(..., 10, versionBits)", "a version in [32768, 65535]"),
+ "C11-r7m1": ("annotate/internal/core/compute.go nextVersionIndex: threshold moved from the parent side to the child side of the comparison", "a child history without commit times next to a next-parent version with one (or the reverse) inside one threshold window, i.e. an edit pair straddling 2012-09-12 (mixed-era histories: not generated, the two regimes of the statement do not determine the result)"),
+ "C11-r7m2": ("relation.go ApplyUpdatesUpTo: notApplied := r.Updates[:0] (in-place filter)", "a shallow copy sharing Updates queried at a time that applies some but not all updates, then a second query"),
+ "C12-r7m1": ("update.go Less: timestamps compared with != instead of Equal", "same instant in different zones and a parent with more than 12 updates"),
+ "C12-r7m2": ("annotate/internal/core/compute.go: final SortByIndex only when a chunk starts at a lower index than the tail", "a child at two or more positions of the parent with >= 2 minor versions and no other contributor after it"),
+ "C13-r7m1": ("annotate/change.go addUpdate: the previously handled element of the same id becomes Old when the history lookup is older or empty", "the same element twice in a row in one modify/delete block with a history lacking the intermediate version"),
+ "C13-r7m2": ("annotate/change.go: Visible set before the lookup + findPrevious* skip invisible history versions for deletes (two sites)", "a delete whose greatest earlier history version is itself not visible"),
+ "C14-r7m1": ("annotate/order.go walk: member id taken via m.FeatureID().RelationID()", "a member relation id >= 2^40 or negative"),
+ "C14-r7m2": ("annotate/order.go: path buffer capped at 100 levels, deeper descent treated like a cycle", "an acyclic chain nested deeper than 100 levels"),
+ "C15-r7m1": ("way.go LineStringAt: due test compares Unix seconds", "an update in the same second as t but strictly later"),
+ "C15-r7m2": ("relation.go ApplyUpdatesUpTo: pending updates filtered in place", "another holder of the same Updates backing array (struct copy, reused slice) with a due update stored before a pending one"),
+ "C16-r7m1": ("internal/mputil MultiSegment.Ring: orientation check no longer guarded by Orientation != 0", "a ring mixing annotated and un-annotated members"),
+ "C16-r7m2": ("internal/mputil MultiSegment.Orientation: shoelace sum without translation to the first point", "a ring a few 1e-7 degrees across far from lon 0 / lat 0"),
+ "C17-r7m1": ("osmgeojson/convert.go: membership map not built under NoRelationMembership(true)", "that option plus an untagged way node that is a relation member"),
+ "C17-r7m2": ("osmgeojson/convert.go buildRouteLineString: member lines cached across route relations while Join reverses in place", "two route relations sharing a way, the earlier traversing it against node order"),
+ "C18-r7m1": ("polygon.go: closedness compared on FeatureID() of the end nodes (drops the top 16 bits)", "an open way whose first and last node ids differ but agree modulo 2^48"),
+ "C18-r7m2": ("polygon.go: 'no' matched with EqualFold", "area=No / building=NO and other case variants of no"),
+ "C19-r7m1": ("replication/search.go ChangesetStateAt: Min: minChangeset", "changeset replication below sequence 2007990 with missing files at the bisection probes"),
+ "C19-r7m2": ("replication/interval.go baseSeqURL: path built by slicing a %09d string", "a sequence number >= 10^9 (no three-level path exists there; outside what the statement determines)"),
+ "C20-r7m1": ("osmapi/way.go WayHistory: base URL concatenated into the Sprintf format", "WayHistory with a base URL containing a percent sign"),
+ "C20-r7m2": ("osmapi/datasource.go baseURL(): empty BaseURL falls back to DefaultDatasource.BaseURL first", "a custom datasource with empty BaseURL while DefaultDatasource.BaseURL was changed"),
 }
 import re
 PKG_DIR = {"osm_test": ".", "osm": ".", "annotate_test": "annotate", "annotate": "annotate", "osmapi_test": "osmapi", "osmapi": "osmapi",
